@@ -19,6 +19,8 @@ def make_work(rng, tier):
                                  "batch_size": rng.choice([1, 2, 7, 2048]), "enable_optimizer": bool(rng.below(2))}))
         work.append({"id": "c06-%d" % i, "tables": tables, "runs": runs, "mode": "det", "det_partitions": 2,
                      "sched": {"kind": rng.choice(["fifo", "lifo"]), "seed": 1}})
+    from . import sqlfam
+    work += sqlfam.using_family(rng, 2 if tier == 'quick' else 12, 'c06')
     return work
 
 
